@@ -15,7 +15,7 @@ RULE = (
     "scheme-relative / path / relative segment / ../ / ?query; entry point PoolManager | ProxyManager (forwarding + "
     "CONNECT tunnel) | bare HTTPConnectionPool; policy value None | False | int | Retry(redirect=k) | Retry(total=k) | "
     "Retry(.., raise_on_redirect=False) at request level, pool/manager level, or both; redirect=False; method GET/POST/PUT "
-    "with bytes or seekable-file body and content headers; optionally a connection reset on one or two hops so that the hop is retried on error). The graph is the reference: Location values are built from "
+    "with bytes or seekable-file body and content headers; optionally a connection reset, or a 503 with Retry-After: 0, on one or two hops so that the hop is retried). The graph is the reference: Location values are built from "
     "the intended next node, so the sequence of (origin, method, target, body, content headers) the SERVERS saw must be "
     "a prefix of the graph walk, not longer than 1 + budget. Non-trivial = the chain has >= 2 hops and the budget is hit, "
     "or a hop crosses origins, or a 303 occurs."
@@ -89,7 +89,11 @@ def run_case(case) -> list[Failure]:
         # the same total differs between the bare pool (charged) and the managers (not charged) - both satisfy the
         # statement, so with faults only the upper bound, the walk and the no-follow clauses are asserted.
         budget = min(x for x in (red, tot) if x is not None)
-        run.world.fault_plan = {i: "reset" for i in faults}
+        fk = case.get("fault_kind", "reset")
+        if fk not in ("reset", "busy"):
+            raise core.InvalidCase
+        # "busy": a 503 with Retry-After: 0 instead of the hop's response - a status retry of the same (idempotent) request
+        run.world.fault_plan = {i: fk for i in faults}
     follow = case.get("redirect_kw", True) and spec["t"] != "false"
     if not case.get("redirect_kw", True):
         budget_eff = 0
@@ -312,7 +316,7 @@ def enum_cases(tier):
                     hops = [(0, codes[i], ("abs", "path", "absport")[(k + i) % 3], 0) for i in range(n)]
                     yield {"kind": "redir", "entry": "pool", "graph": chain_graph(hops), "method": ("GET", "POST")[k % 2], "body": (None, "bytes")[k % 2],
                            "req_policy": pol if place == "request" else None, "mgr_policy": pol if place == "manager" else None, "redirect_kw": True}
-    # a connection error on one hop (the request is retried) inside a redirect chain
+    # a connection error or a retryable status (503 + Retry-After) on one hop (the request is retried) inside a redirect chain
     for entry in ("pm", "proxy", "pool"):
         for code in (302, 307, 303):
             for fault_at in (0, 1, 2):
@@ -322,8 +326,9 @@ def enum_cases(tier):
                             k += 1
                             o1, o2 = (0, 0) if entry == "pool" else (1, 2)
                             g = chain_graph([(0, code, "abs", o1), (o1, code, "abs" if entry == "pool" else "netpath" if ORIGINS[o1][0] == ORIGINS[o2][0] else "abs", o2), (o2, code, "path", o2)])
-                            yield {"kind": "redir", "entry": entry, "graph": g, "method": "GET", "body": None, "req_policy": pol if place == "request" else None, "mgr_policy": pol if place == "manager" else None,
-                                   "redirect_kw": redirect_kw, "faults": [fault_at]}
+                            for fk in ("reset", "busy"):
+                                yield {"kind": "redir", "entry": entry, "graph": g, "method": "GET", "body": None, "req_policy": pol if place == "request" else None, "mgr_policy": pol if place == "manager" else None,
+                                       "redirect_kw": redirect_kw, "faults": [fault_at], "fault_kind": fk}
     # redirect=False and loops
     for entry in ("pm", "proxy", "pool"):
         for code in redirects.CODES:
@@ -366,6 +371,7 @@ def _hyp():
              "redirect_kw": draw(st.integers(0, 7)) != 0}
         if method in ("GET", "DELETE") and draw(st.integers(0, 2)) == 0:
             c["faults"] = sorted(set(draw(st.lists(st.integers(0, 4), min_size=1, max_size=2))))
+            c["fault_kind"] = draw(st.sampled_from(["reset", "busy"]))
         return c
 
     return case()
